@@ -194,8 +194,18 @@ func (w *World) storeLoadCycleOf(t *rapid.T, st *ev.Stats, checkAlloc bool, i in
 
 // C05: backup and restore reproduce the stored snapshot exactly.
 func TestC05(t *testing.T) {
-	st := ev.Get("C05", "TestC05")
-	rapid.Check(t, func(t *rapid.T) {
+	rapid.Check(t, backupProp(ev.Get("C05", "TestC05")))
+}
+
+// C14 for structures produced by LoadFromDisk: the same backup/restore histories; what is judged for C14 is
+// the structural walk and the statistics of every restored store, right after the restore and again after
+// further operations (WalkStore), on top of the round trip itself.
+func TestC14Store(t *testing.T) {
+	rapid.Check(t, backupProp(ev.Get("C14", "TestC14Store")))
+}
+
+func backupProp(st *ev.Stats) func(t *rapid.T) {
+	return func(t *rapid.T) {
 		sched.SeedRand(t)
 		cfg := genCfg(t, -1, true)
 		w := NewWorld(t, cfg, st)
@@ -267,5 +277,5 @@ func TestC05(t *testing.T) {
 		}
 		st.Case(w.Desc(), nontrivial, classes...)
 		st.AddExtra("backups", int64(cycles))
-	})
+	}
 }
